@@ -85,6 +85,7 @@ type flow struct {
 	System       bool
 	Wrap         bool // sent as *prc.MessageWrapper (the form vivid uses) or raw
 	PK           int
+	Lean         bool   // contents of 0..8 runes instead of the ordinary mix
 	Mode         string // tell | ask | future (vivid scenarios); prc scenarios: tell
 	senderPid    *prc.ProcessId
 	recvPid      *prc.ProcessId // value used for comparisons
@@ -143,9 +144,36 @@ type world struct {
 	mu      sync.Mutex
 	strange []string // deliveries that belong to no flow
 	panics  []string
+	hasSize atomic.Bool
+	sizes   map[string]int // key(flow, seq) -> content bytes of the messages that carry a LARGE payload (set before they are sent)
 }
 
-func newWorld() *world { return &world{flows: map[string]*flow{}} }
+func newWorld() *world { return &world{flows: map[string]*flow{}, sizes: map[string]int{}} }
+
+// setSize plans a large payload: message seq of flow f will carry about `bytes` encoded payload bytes.
+func (w *world) setSize(f *flow, seq, bytes int) {
+	w.mu.Lock()
+	w.sizes[key(f.ID, seq)] = contentLen(f.PK, bytes)
+	w.mu.Unlock()
+	w.hasSize.Store(true)
+}
+
+// contentOf is the content message seq of flow f has to carry: the sender builds it, the receiver re-builds it.
+func (w *world) contentOf(flowID string, seq int) string {
+	if f := w.flows[flowID]; f != nil && f.Lean { // (the flow table is complete before the first message is sent)
+		return leanContent(flowID, seq)
+	}
+	if !w.hasSize.Load() {
+		return content(flowID, seq)
+	}
+	w.mu.Lock()
+	n := w.sizes[key(flowID, seq)]
+	w.mu.Unlock()
+	if n > 0 {
+		return bigContent(flowID, seq, n)
+	}
+	return content(flowID, seq)
+}
 
 func (w *world) addFlow(f *flow) {
 	w.flows[f.ID] = f
@@ -188,7 +216,7 @@ func (w *world) arrived(node int, recv string, system bool, sender, receiver *pr
 	if pk != f.PK {
 		f.note("type", fmt.Sprintf("seq %d: sent payload kind %d, received %T", seq, f.PK, inner))
 	}
-	if want := content(f.ID, seq); c != want || !intact {
+	if want := w.contentOf(f.ID, seq); c != want || !intact {
 		f.note("content", fmt.Sprintf("seq %d: sent %s received %s (carrier intact=%v)", seq, short(want), short(c), intact))
 	}
 	if node != f.Dst || recv != f.Recv {
